@@ -103,7 +103,7 @@ claim("C01", "other",
       "quote containers: emitted under the container prefixes, first-line prefix consumed); render_literal / render_line_break "
       "keep or drop an escape exactly as the escape context says (only a hard break resets it); _render_code emits every code "
       "line verbatim. The statement parse(format(x)) ~ parse(x) is explored on a generated document space with flowmark's "
-      "own parser as reader; nine defects found this way were repaired (fix: commits), eight are recorded known findings "
+      "own parser as reader; the defects found this way were repaired (fix: commits, DESIGN.md 9.3), the others are recorded known findings "
       "whose witnesses are replayed on every run.", _PIPE_NOTE,
       "contract-based deductive verification of the wrapping mechanisms (AST->VC + z3); bounded re-parse equivalence as stand-in",
       "DESIGN.md §3 C01")
